@@ -456,7 +456,9 @@ void ts_lexer_finish(Lexer *self, uint32_t *lookahead_end_byte) {
     self->token_start_position = self->token_end_position;
   }
 
-  uint32_t current_lookahead_end_byte = self->current_position.bytes + 1;
+  // The lookahead character may be several bytes long, and all of its bytes were examined.
+  uint32_t current_lookahead_end_byte =
+    self->current_position.bytes + (self->lookahead_size > 1 ? self->lookahead_size : 1);
 
   // In order to determine that a byte sequence is invalid UTF8 or UTF16,
   // the character decoding algorithm may have looked at the following byte.
